@@ -1,8 +1,18 @@
-import XmppModel.Prelude.Hex
-/-! Driver module for C04: `handle args` answers one protocol line (fields after the
-property id); `none` means the line is not understood (`!bad-op`). -/
+import XmppModel.Driver.C01
+/-! Driver for C04: the negotiation model of C01 with faults (same line syntax, see
+`Driver/C01.lean`). -/
 namespace XmppModel.Driver.C04
 
-def handle (_args : List String) : Option String := none
+/-- `hs <name> <kind> <n>`: a handshake with the library's own features under one fault
+(`cut` of the peer's stream after `n` bytes, failing `rd`/`wr` number `n`, `cancel` before the
+peer's step `n`); the prediction is `C04_fail_closed`: any fault ends in failure, the
+fault-free run (`clean`) completes -/
+def handle (args : List String) : Option String :=
+  match args with
+  | ["hs", _name, kind, _n] =>
+    if kind == "clean" then some "done"
+    else if kind == "cut" || kind == "rd" || kind == "wr" || kind == "cancel" then some "fail"
+    else none
+  | _ => XmppModel.Driver.C01.handle args
 
 end XmppModel.Driver.C04
